@@ -239,6 +239,8 @@ def _valid_op(op):
             sp = op['spec']
             if not isinstance(sp, dict):
                 return False
+            if 'raw' in sp and sp['raw'] not in badops._BAD_SPECS:
+                return False
             if sp.get('fill') is not None and (not isinstance(sp['fill'], str) or len(sp['fill']) != 1):
                 return False
             if sp.get('fill') is not None and sp.get('align') is None:
